@@ -455,6 +455,33 @@ def _run_cfg(case):
                      'env_calls': getattr(m.therm, 'calls', None)}}
 
 
+def run_isolation(case):
+    """Two models in one process: model A is built and given non-default boundary conditions, then model B of the product is
+    built with everything left at its defaults and run under the full oracle of run_cfg.  B must behave as the closed system it
+    was declared to be, whatever was configured on another model object before (seed s04e: a default argument evaluated once
+    made every model built without boundaryConditions= share one BoundaryConditions object)."""
+    a, b = case['first'], case['then']
+
+    def go():
+        try:
+            dt0, dz = _probe_dt0(a)
+            ma, _ = _build(a, J_REL * dz / dt0, dt0)
+            ma.setup()
+        except Exception as e:
+            return {'viol': [{'sig': 'isolation/exception-building-first-model', 'msg': '%s: %s: %s' % (_describe(a), type(e).__name__, e)}],
+                    'states': 0, 'transitions': 0, 'outcome': 'exception', 'nontrivial': False}
+        r = _run_cfg(b)
+        for v in r.get('viol', ()):
+            v['sig'] = 'isolation/after=%s/%s' % (a['model'], v['sig'])
+            v['msg'] = 'after building [%s]: %s' % (_describe(a), v['msg'])
+        r['outcome'] = 'after=%s/%s' % (a['model'], r.get('outcome'))
+        return r
+    if 'homog' in (a['model'], b['model']):
+        with diff_env.patched_single_mobility():
+            return go()
+    return go()
+
+
 def _bucket(n):
     return str(n) if n <= 3 else ('4-9' if n < 10 else ('10-29' if n < 30 else '30+'))
 
@@ -580,6 +607,29 @@ def run(ctx):
         'HomogenizationModel raises when no node can move (flat closed profile, or N = 2 with both nodes of every component '
         'fixed): no flux difference to size the step from; such runs are outside these products (well-formedness is C03)',
     ]
+
+    # --- stage 0: isolation of model objects (operation sequences "configure model A, then run a default model B") ---------
+    iso = []
+    for ma in ['single', 'homog']:
+        for bca, api in (([['c', '-J']], 'side'), ([['+J', 'c']], 'setBC'), ([['-J', '+J']], 'side-str'), ([['c', 'c']], 'setBC-default-element')):
+            first = {'model': ma, 'els': 'bin', 'N': 5, 'profile': 'linear', 'bc': bca, 'it': 'euler', 'calls': 1, 'temp': 'iso',
+                     'nsteps': nsteps, 'bcapi': api}
+            if ma == 'homog':
+                first['rule'] = 'wiener upper'
+            for mb in ['single', 'homog']:
+                for els in ['bin', 'tern']:
+                    for it in its:
+                        then = {'model': mb, 'els': els, 'N': 5, 'profile': 'step', 'bc': [['f0', 'f0']] * (len(ELEMENTS[els]) - 1),
+                                'it': it, 'calls': 2, 'temp': 'iso', 'nsteps': nsteps}
+                        if mb == 'homog':
+                            then['rule'] = 'hashin lower'
+                        iso.append({'first': first, 'then': then})
+    ctx.bounds['isolation'] = 'first model: single/homog x 4 boundary-condition mixes (one per API form); then: single/homog x bin/tern x iterator, all defaults'
+    ctx.product_run('isolation', 'checks.c04:run_isolation', iso)
+    if ctx.violations:
+        # the products below build one model per case in long-lived workers and presuppose that model objects do not share state
+        ctx.cap('stage isolation found violations: model objects share state, the remaining stages were not run')
+        return
 
     # --- stage 1: conservation products on the analytic environments ------------------------------------------
     nclip = nskip = 0
